@@ -587,6 +587,37 @@ TXT["gap_ld"] = r"{V^{lm}_{de}} {t1^{de}_{lm}} {t2^{a}_{i}}"
 TXT["gap_kcY"] = r"{V^{ka}_{ic}} {Y^{c}_{k}}"
 TXT["gap_ldY"] = r"{V^{la}_{id}} {Y^{d}_{l}} {f^{m}_{m}}"
 
+# fractions with an orbital energy numerator of non-canonical sign
+TXT["num_t2"] = (r"\frac{\left({e_{a}} - {e_{i}}\right) {V^{jk}_{bc}} {X^{bc}_{jk}}}"
+                 r"{{e_{b}} + {e_{c}} - {e_{j}} - {e_{k}}}")
+TXT["num_t2b"] = (r"\frac{\left({e_{a}} + {e_{b}} - {e_{i}}\right) {V^{jk}_{bc}} {Y^{c}_{k}}}"
+                  r"{\left({e_{b}} + {e_{c}} - {e_{j}} - {e_{k}}\right) \left({e_{a}} - {e_{i}}\right)}"
+                  r" - \frac{\left({e_{j}} - {e_{b}}\right) {V^{ij}_{ab}}}{{e_{a}} + {e_{b}} - {e_{i}} - {e_{j}}}")
+for _k, _tg in (("num_t2", "ia"), ("num_t2b", "ijab")):
+    def _mk(k, tg):
+        @tmpl(f"expr.eri_orbenergy({k})", "expr", None)
+        def _(w):
+            from adcgen import EriOrbenergy
+            e = imp(w, k, real=True, targets=tg)
+            out = []
+            for t in e.terms:
+                x = EriOrbenergy(t)
+                out.append([str(x.pref), str(x.num), str(x.denom), str(x.eri),
+                            str(x.canonicalize_sign()), str(EriOrbenergy(t).expr)])
+            return out
+
+        @tmpl(f"expr.factor_intermediates({k},t2_1)", "expr", tg, cost=2)
+        def _(w):
+            from adcgen import factor_intermediates
+            return factor_intermediates(imp(w, k, real=True, targets=tg), types_or_names="t2_1")
+
+        @tmpl(f"expr.reduce_expr({k})", "expr", tg, cost=2)
+        def _(w):
+            from adcgen import reduce_expr
+            return reduce_expr(imp(w, k, real=True, targets=tg))
+    _mk(_k, _tg)
+
+
 for _k in ("dep4", "dep4x", "dep3"):
     def _mk(k):
         @tmpl(f"expr.cancel_orb_energy_frac({k})", "expr", "")
